@@ -232,6 +232,17 @@ class PtBackend(Backend):
             return pt.zeros_like(g(c["a"]))
         if op == "ones_like":
             return pt.ones_like(g(c["a"]))
+        if op == "lpcall":
+            # one Call object per "cid": several results of one call share it
+            from pytato.loopy import call_loopy
+
+            from . import lpkernels
+            memo = self.__dict__.setdefault("_lp", {})
+            key = (id(self.values), c["cid"])
+            if key not in memo:
+                knl = lpkernels.kernel(c["knl"], c["sizes"])
+                memo[key] = call_loopy(knl, {k: g(v) for k, v in c["bind"].items()})
+            return memo[key][c["res"]]
         if op == "tag":
             from . import usertags
             return g(c["a"]).tagged(usertags.make(c["tag"]))
@@ -332,6 +343,26 @@ class NpBackend(Backend):
             return np.ones_like(g(c["a"]))
         if op in ("tag", "tag_axis"):
             return g(c["a"])
+        if op == "lpcall":
+            from . import lpkernels
+            e = lpkernels.KERNELS[c["knl"]]
+            spec = e["args"](**c["sizes"])
+            vals = {}
+            if set(c["bind"]) != set(spec):
+                raise ValueError("lpcall: bindings do not match the kernel's arguments")
+            for k, v in c["bind"].items():
+                x = g(v)
+                shape, d = spec[k]
+                if shape is None:
+                    if np.ndim(x) != 0:
+                        raise ValueError("lpcall: scalar argument expected")
+                    x = np.asarray(x).astype(DT[d])[()]
+                else:
+                    x = np.asarray(x)
+                    if tuple(x.shape) != tuple(shape) or x.dtype != np.dtype(DT[d]):
+                        raise ValueError("lpcall: argument shape/dtype mismatch")
+                vals[k] = x
+            return e["ref"](**vals)[c["res"]]
         raise Unsupported(f"op {op}")
 
 
